@@ -171,6 +171,17 @@ class Mod:
         self.tc_block = rnd.choice([None, "Circle", "Circle, Square"]) if idx != 1 else "Circle"
         self.try_import = (r() < 0.3) or idx == 1
         self.local_plain_import = (r() < 0.3) or idx == 1
+        # module-level imports that are NOT at the top (after a def / class / if / assignments) of a name the stub needs
+        self.late_needed = rnd.choice([None, None, "after_def", "after_class", "after_if", "after_assign"])
+        # imports inside ONE-LINE compound statements (needed by the stub and not)
+        self.oneline = [i for i in range(8) if r() < 0.2]
+        if idx == 2:
+            self.late_needed = rnd.choice(["after_def", "after_class", "after_if"])
+            self.from_shapes = rnd.choice([None, "Circle"])
+        if idx == 3:
+            self.oneline = list(range(8))
+            self.from_shapes = None
+            self.import_shapes_mod = False
         self.classes = []
         for ci in range(rnd.randint(0, 2)):
             ms = []
@@ -218,6 +229,11 @@ class Mod:
         L.append("LIMIT = 10")
         if self.global_cls_name_as_var:
             L.append("K9 = None")
+        late = [f"from {self.shapes} import Square  # late import", "UNIT = Square()"]
+        if self.late_needed == "after_assign":
+            L += late
+        if self.late_needed == "after_if":
+            L += ["if LIMIT < 0:", "    LIMIT = 0"] + late
         L.append("")
         L.append("def passthru(fn):")
         L.append("    @functools.wraps(fn)")
@@ -225,6 +241,23 @@ class Mod:
         L.append("        return fn(*a, **k)")
         L.append("    return wrapper")
         L.append("")
+        if self.late_needed == "after_def":
+            L += late + [""]
+        sh = self.shapes
+        one = [
+            [f"def make_c(n): from {sh} import Circle; return Circle()"],
+            ["def make_j(n): import json; return json.dumps(n)"],
+            [f"try: from {sh} import Square", "except ImportError: Square = None"],
+            ["try: import string as _string", "except ImportError: _string = None"],
+            [f"if LIMIT: from {sh} import Circle as _IfC", "else: _IfC = None"],
+            [f"if LIMIT > 100: from {sh} import Square"],
+            [f"class Holder: from {sh} import Circle"],
+            [f"with open(os.devnull) as _fh: from {sh} import Square"],
+        ]
+        for i in self.oneline:
+            L += one[i]
+        if self.oneline:
+            L.append("")
         if self.local_plain_import:
             L.append("def uses_local_import():")
             L.append(f"    from {self.shapes} import Circle")
@@ -256,6 +289,8 @@ class Mod:
                 L.append("        def dm(self, q):")
                 L.append("            return q")
                 L.append("")
+        if self.late_needed == "after_class":
+            L += late
         L.append("print_ok = os.sep  # module level code at the end")
         return "\n".join(L) + "\n"
 
